@@ -1570,6 +1570,22 @@ def install_numpy_models(interp):
         if (isinstance(x, float) and math.isinf(x)) or (isinstance(y, float) and math.isinf(y)):
             return x if bool(compare(x, y, "<=")) else y
         return smin(x, y)
+    def _isclose2(x, y, rtol=1e-05, atol=1e-08):
+        # numpy: |x - y| <= atol + rtol * |y| for finite values (A1: over the reals)
+        d = sub(x, y)
+        ad = If(compare(d, 0, ">="), d, sub(0, d))
+        ay = If(compare(y, 0, ">="), y, sub(0, y))
+        return compare(ad, add(atol, mul(rtol, ay)), "<=")
+
+    def n_isclose(interp, a, b, rtol=1e-05, atol=1e-08, equal_nan=False):
+        return pairwise(lambda x, y: _isclose2(x, y, rtol, atol))(interp, a, b)
+    register_model(np.isclose, n_isclose)
+
+    def n_allclose(interp, a, b, rtol=1e-05, atol=1e-08, equal_nan=False):
+        r = n_isclose(interp, a, b, rtol, atol)
+        flat = list(np.ravel(np.asarray(r, dtype=object))) if isinstance(r, np.ndarray) else [r]
+        return And(*flat) if flat else True
+    register_model(np.allclose, n_allclose)
     register_model(np.maximum, pairwise(_max2))
     register_model(np.minimum, pairwise(_min2))
     register_model(np.power, pairwise(power))
